@@ -46,7 +46,9 @@ RULE = (
     '(chain: >= 2 members expose the same name); distinct = sha1 of the descriptor JSON'
 )
 ASSUMPTIONS = [
-    'names are ASCII (VPK requires it), components are non-empty, contain no separator, do not end in a dot and are '
+    'names are ASCII plus a few non-ASCII letters incl. characters with lower() != casefold() (VPK gets the ASCII part '
+    'of the set); non-ASCII names are queried in their own spelling and with the case of ASCII letters changed only; '
+    'components are non-empty, contain no separator, do not end in a dot and are '
     'neither "." nor ".."; no two paths are equal under case folding and no path is a folder of another '
     '(needed so that the same set is expressible in all four backends)',
     'each case-folded folder has one spelling inside one backend (a case-sensitive directory would otherwise hold '
@@ -70,14 +72,33 @@ CAPS = (300, 2400)
 
 BACKENDS = ('virtual', 'zip', 'vpk', 'raw')
 
-FOLDERS = ['materials', 'materials2', 'Materials_old', 'mat', 'a', 'b', 'bc', 'Models', 'sub', 'Sub2', 'x.d']
-STEMS = ['b', 'bc', 'file', 'File2', 'materials', 'readme', 'X', 'a', 'sub']
+FOLDERS = ['materials', 'materials2', 'Materials_old', 'mat', 'a', 'b', 'bc', 'Models', 'sub', 'Sub2', 'x.d',
+           'Stra\u00dfe', '\u00b5m']      # Strasse with sharp s, micro sign: lower() != casefold()
+STEMS = ['b', 'bc', 'file', 'File2', 'materials', 'readme', 'X', 'a', 'sub',
+         'Pflaster_\u00df', '5\u00b5m_Tone', '\u017ftart', '\ufb01le', '\u03c3\u03b1\u03c2', '\u00dcn\u00efcode', '\u03a9mega']
 EXTS = ['', '.txt', '.txt', '.vmt', '.VTF', '.tar.gz', '.d']
 CASEMODES = ['asis', 'asis', 'asis', 'upper', 'lower', 'swap', 'title']
 
 POOL_FOLDERS = ['a', 'ab', 'Sub']
 POOL_STEMS = ['x', 'xy', 'Y']
 POOL_EXTS = ['.txt', '.txt', '']
+
+
+_ASCII_UP = {c: c.upper() for c in 'abcdefghijklmnopqrstuvwxyz'}
+_ASCII_LO = {v: k for k, v in _ASCII_UP.items()}
+
+
+def aupper(text: str) -> str:
+    """Upper-case the ASCII letters only (nothing is stated about the case mapping of other characters)."""
+    return ''.join(_ASCII_UP.get(c, c) for c in text)
+
+
+def alower(text: str) -> str:
+    return ''.join(_ASCII_LO.get(c, c) for c in text)
+
+
+def aswap(text: str) -> str:
+    return ''.join(_ASCII_UP.get(c) or _ASCII_LO.get(c) or c for c in text)
 
 
 def recase(text: str, mode: str) -> str:
@@ -125,7 +146,7 @@ def chain_strategy(tier: str):
         'prefix': st.one_of(st.none(), st.none(), st.integers(0, 15)),   # index into the member's folders
         'prefix_case': st.sampled_from(['orig', 'orig', 'orig', 'upper', 'lower']),
         'prefix_slash': st.booleans(),
-        'how': st.sampled_from(['ctor', 'ctor', 'add', 'priority']),
+        'how': st.sampled_from(['ctor', 'add', 'add', 'priority']),
     })
     return st.fixed_dictionaries({
         'pool': st.lists(path_strategy(POOL_FOLDERS, POOL_STEMS, POOL_EXTS, max_depth=3), min_size=1, max_size=10),
@@ -175,7 +196,7 @@ class FileSet:
     """A legal file set with tokens; the oracle for one backend."""
     def __init__(self, paths, tag: str = '') -> None:
         self.paths = list(paths)
-        self.tokens = {p: f'DATA{tag} {i} {p}\n'.encode('ascii') for i, p in enumerate(self.paths)}
+        self.tokens = {p: f'DATA{tag} {i} {p}\n'.encode('utf8') for i, p in enumerate(self.paths)}
         self.by_fold = {fold(p): p for p in self.paths}
         if len(self.by_fold) != len(self.paths):
             raise HarnessError(f'file set not unique under folding: {paths!r}')
@@ -291,7 +312,7 @@ def make_backend(kind: str, fset: FileSet, scratch: Scratch, opts: dict):
     from srctools.vpk import VPK
     if kind == 'virtual':
         if opts.get('virt_str'):
-            return VirtualFileSystem({p: fset.tokens[p].decode('ascii') for p in fset.paths})
+            return VirtualFileSystem({p: fset.tokens[p].decode('utf8') for p in fset.paths})
         return VirtualFileSystem({p: fset.tokens[p] for p in fset.paths})
     d = scratch.sub(kind)
     if kind == 'zip':
@@ -354,10 +375,10 @@ def mixed_slashes(path: str) -> str:
 
 def spellings(path: str):
     """(label, text) for every query spelling of a stored name."""
-    res = [('orig', path), ('upper', path.upper()), ('lower', path.lower()), ('swap', path.swapcase())]
+    res = [('orig', path), ('upper', aupper(path)), ('lower', alower(path)), ('swap', aswap(path))]
     if '/' in path:
         res.append(('backslash', path.replace('/', '\\')))
-        res.append(('backslash_upper', path.upper().replace('/', '\\')))
+        res.append(('backslash_upper', aupper(path).replace('/', '\\')))
         if path.count('/') > 1:
             res.append(('mixed_slash', mixed_slashes(path)))
     return res
@@ -376,7 +397,7 @@ def absent_names(fset: FileSet, seed: int):
     for p in fset.paths:
         cand += [p + 'x', p[:-1], p + '/x.txt', 'zz/' + p, p.rsplit('.', 1)[0], p.split('/')[-1]]
     for f in fset.folders.values():
-        cand += [f, f + '.txt', f + '/', f.upper()]
+        cand += [f, f + '.txt', f + '/', aupper(f)]
     cand = [c for c in cand if c and fold(c).rstrip('/') not in fset.by_fold and not c.startswith('/')]
     return rotate(cand, seed, 14)
 
@@ -387,7 +408,7 @@ def folder_queries(fset: FileSet, seed: int):
     extra = []
     for f in fset.folders.values():
         res += [('exact', f), ('exact_slash', f + '/')]
-        extra += [('upper', f.upper()), ('lower', f.lower()), ('swap', f.swapcase()), ('upper_slash', f.upper() + '/')]
+        extra += [('upper', aupper(f)), ('lower', alower(f)), ('swap', aswap(f)), ('upper_slash', aupper(f) + '/')]
         if '/' in f:
             extra += [('backslash', f.replace('/', '\\')), ('backslash_trail', f.replace('/', '\\') + '\\')]
         else:
@@ -427,6 +448,10 @@ def classify(ctx, fset: FileSet) -> None:
         ctx.label('mixed_case')
     if pref:
         ctx.label('prefix_pair')
+    if any(p.lower() != p.casefold() for p in fset.paths):
+        ctx.label('name:lower_ne_casefold')
+    if any(not p.isascii() for p in fset.paths):
+        ctx.label('name:non_ascii')
     if not fset.paths:
         ctx.label('empty_set')
     depth = max((p.count('/') for p in fset.paths), default=0)
@@ -440,7 +465,7 @@ def classify(ctx, fset: FileSet) -> None:
 def read_all(fobj) -> bytes:
     with fobj:
         data = fobj.read()
-    return data.encode('ascii') if isinstance(data, str) else data
+    return data.encode('utf8') if isinstance(data, str) else data
 
 
 def check_present(ctx, fs, backend: str, q: str, want: bytes, spelling: str) -> None:
@@ -496,7 +521,10 @@ def execute_names(desc, ctx):
     classify(ctx, fset)
     scratch = Scratch()
     try:
+        full_set = fset
         for backend in BACKENDS:
+            # VPK names must be ASCII: that backend gets the ASCII part of the set
+            fset = full_set if backend != 'vpk' else FileSet([p for p in full_set.paths if p.isascii()])
             fs = make_backend(backend, fset, scratch, desc)
             for p in fset.paths:
                 for lab, q in spellings(p):
@@ -558,6 +586,8 @@ def make_walk_execute(backend: str):
     def execute_walk(desc, ctx):
         fset = FileSet(normalise(desc['paths']))
         classify(ctx, fset)
+        if backend == 'vpk':        # VPK names must be ASCII
+            fset = FileSet([p for p in fset.paths if p.isascii()])
         scratch = Scratch()
         try:
             fs = make_backend(backend, fset, scratch, desc)
@@ -632,13 +662,14 @@ class Member:
 
 
 def execute_chain(desc, ctx):
+    """A history: constructor, then add_sys() calls interleaved with query rounds; every round is judged against the
+    first-member-wins model of the chain as it is at that moment."""
     from srctools.filesys import FileSystemChain
     pool = normalise(desc['pool'])
     members = [Member(i, md, pool) for i, md in enumerate(desc['members'])]
     scratch = Scratch()
     try:
         systems = [make_backend(m.backend, m.fset, scratch, {}) for m in members]
-        # --- build the chain and the reference order
         n_ctor = 0
         while n_ctor < len(members) and members[n_ctor].how == 'ctor':
             n_ctor += 1
@@ -647,18 +678,6 @@ def execute_chain(desc, ctx):
             args.append((fs, m.prefix_arg) if m.prefix_arg else fs)
         chain = FileSystemChain(*args)
         order = list(members[:n_ctor])
-        for m, fs in zip(members[n_ctor:], systems[n_ctor:]):
-            if m.how == 'priority':
-                chain.add_sys(fs, m.prefix_arg, priority=True)
-                order.insert(0, m)
-                ctx.label('priority_insert')
-            else:
-                chain.add_sys(fs, m.prefix_arg)
-                order.append(m)
-        got_order = [(s, p) for s, p in chain.systems]
-        want_order = [(systems[m.index], m.prefix_arg) for m in order]
-        ctx.check(len(got_order) == len(want_order) and all(a[0] is b[0] and a[1] == b[1] for a, b in zip(got_order, want_order)),
-                  'order', f'chain.systems order {[p for _, p in got_order]!r} != model {[m.prefix_arg for m in order]!r}')
 
         for m in members:
             ctx.label('member:' + m.backend)
@@ -666,16 +685,45 @@ def execute_chain(desc, ctx):
                 ctx.label('prefixed_member')
                 if fold(m.prefix_arg.rstrip('/')) == fold(m.prefix) and m.prefix_arg.rstrip('/') != m.prefix:
                     ctx.label('prefix_other_case')
-        vis = [m.visible() for m in order]
-        all_names: dict[str, list[int]] = {}
-        for i, v in enumerate(vis):
+        ctx.label(f'members:{len(members)}')
+
+        # --- the universe of queries comes from ALL members, so that names are also asked before they exist
+        final_vis = [m.visible() for m in members]
+        universe = []
+        for m, v in zip(members, final_vis):
+            for name, stored in v.items():
+                universe.extend(spellings(m.rel(stored)))
+        universe = list(dict.fromkeys(universe))
+        absent = ['nope.txt']
+        for m in members:
+            absent += list(m.fset.paths)        # stored names are not visible through a prefixed member
+            absent += [p + 'x' for p in m.fset.paths[:2]]
+        folder_universe = []
+        seen_folders = set()
+        for m, v in zip(members, final_vis):
+            for name, stored in v.items():
+                rel = m.rel(stored)
+                comps = rel.split('/')
+                for i in range(1, len(comps)):
+                    f = '/'.join(comps[:i])
+                    if fold(f) in seen_folders:
+                        continue
+                    seen_folders.add(fold(f))
+                    folder_universe += [('exact', f), ('exact_slash', f + '/'), ('upper', f.upper()), ('name_prefix', f[:-1]),
+                                        ('name_extended', f + '2'), ('backslash', f.replace('/', '\\'))]
+        folder_universe = [(lab, q) for lab, q in folder_universe if q]
+        shared_names: dict[str, int] = {}
+        for v in final_vis:
             for name in v:
-                all_names.setdefault(name, []).append(i)
-        shared = any(len(v) > 1 for v in all_names.values())
+                shared_names[name] = shared_names.get(name, 0) + 1
+        shared = any(n > 1 for n in shared_names.values())
         if shared:
             ctx.label('shared_name')
-        ctx.label(f'members:{len(members)}')
         ctx.nontrivial(shared and len(members) >= 2)
+        asked_while_absent: set[str] = set()
+
+        def describe():
+            return f'chain {[(x.backend, x.prefix_arg, x.fset.paths) for x in order]!r}'
 
         def winner(q: str):
             """(member, stored path) | None (absent) | 'unspecified'."""
@@ -688,143 +736,150 @@ def execute_chain(desc, ctx):
                     return m, m.fset.by_fold[fold(full)]
             return None
 
-        # --- lookups
-        queries = []
-        for i, m in enumerate(order):
-            for name, stored in vis[i].items():
-                queries.extend(spellings(m.rel(stored)))
-        queries = rotate(queries, desc['qseed'], 40)
-        for lab, q in queries:
-            w = winner(q)
-            if w == 'unspecified':
-                ctx.label('raw_skipped_case')
-                continue
-            if w is None:
-                raise HarnessError(f'visible name {q!r} has no winner')
-            m, stored = w
-            ctx.label('lookup:' + lab)
-            facts = {'spelling': lab, 'query': q, 'winner_backend': m.backend}
-            pre = (f'chain {[(x.backend, x.prefix_arg) for x in order]!r}: {q!r} ({lab}) should come from member '
-                   f'#{m.index} ({m.backend}, prefix {m.prefix_arg!r}, stored {stored!r})')
-            if not ctx.check(q in chain, 'chain_lookup', f'{pre}: `in` says absent', **facts):
-                continue
-            try:
-                f = chain[q]
-            except FileNotFoundError:
-                ctx.fail('chain_lookup', f'{pre}: chain[...] raised FileNotFoundError', **facts)
-                continue
-            want = m.fset.tokens[stored]
-            for what, data in (('File.open_bin', read_all(f.open_bin())), ('File.open_str', read_all(f.open_str())),
-                               ('chain.open_bin', read_all(chain.open_bin(q))),
-                               ('chain.open_str', read_all(chain.open_str(q)))):
-                ctx.check(data == want, 'chain_priority', f'{pre}: {what} gave {data!r}, want {want!r}', **facts)
-            if fold(f.path) != fold(q):
-                ctx.label('note:chain_lookup_path_keeps_prefix')
-        absent = ['nope.txt']
-        for m in members:
-            # names that exist in a member but outside its subfolder are not visible through it
-            absent += [p for p in m.fset.paths]
-            absent += [p + 'x' for p in m.fset.paths[:2]]
-        for q in rotate(absent, desc['qseed'], 10):
-            if winner(q) is not None:
-                continue
-            ctx.label('lookup:absent')
-            ctx.check(not (q in chain), 'chain_lookup', f'chain {[(x.backend, x.prefix_arg) for x in order]!r}: '
-                      f'{q!r} is visible through no member but `in` says present', spelling='absent', query=q)
-            try:
-                f = chain[q]
-            except FileNotFoundError:
-                pass
-            else:
-                ctx.fail('chain_lookup', f'chain: {q!r} is visible through no member but chain[...] returned {f.path!r}',
-                         spelling='absent', query=q)
+        def check_order(step: str) -> None:
+            got_order = [(s_, p_) for s_, p_ in chain.systems]
+            want_order = [(systems[m.index], m.prefix_arg) for m in order]
+            ctx.check(len(got_order) == len(want_order)
+                      and all(x[0] is y[0] and x[1] == y[1] for x, y in zip(got_order, want_order)),
+                      'order', f'{step}: chain.systems order {[p_ for _, p_ in got_order]!r} != model '
+                      f'{[m.prefix_arg for m in order]!r}')
 
-        # --- walks
-        folders = {''}
-        for name in all_names:
-            comps = name.split('/')
-            for i in range(1, len(comps)):
-                folders.add('/'.join(comps[:i]))
-        fq = [('all', '')]
-        extra = []
-        for f in sorted(folders - {''}):
-            # spell the folder like the first member that has it
-            spelled = None
-            for i, v in enumerate(vis):
-                for name, stored in v.items():
-                    if name.startswith(f + '/'):
-                        spelled = order[i].rel(stored)[:len(f)]
-                        break
-                if spelled:
-                    break
-            extra += [('exact', spelled), ('exact_slash', spelled + '/'), ('upper', spelled.upper()),
-                      ('name_prefix', spelled[:-1]), ('name_extended', spelled + '2'),
-                      ('backslash', spelled.replace('/', '\\'))]
-        extra = [(lab, q) for lab, q in extra if q]
-        seen = set()
-        for lab, q in fq + rotate(extra, desc['qseed'], 12):
-            if q in seen:
-                continue
-            seen.add(q)
-            lists = [m.listing(q) for m in order]
-            if any(x is None for x in lists):
-                ctx.label('raw_skipped_case')
-                continue
-            ctx.label('walk:' + lab)
-            facts = {'folder_kind': lab, 'folder': q}
-            want_rep = []
-            first: dict[str, tuple] = {}
-            for m, lst in zip(order, lists):
-                for stored in lst:
-                    name = fold(m.rel(stored))
-                    want_rep.append(name)
-                    first.setdefault(name, (m, stored))
-            pre = f'chain {[(x.backend, x.prefix_arg, x.fset.paths) for x in order]!r}: '
-            rep = list(chain.walk_folder_repeat(q))
-            got_rep = [fold(f.path) for f in rep]
-            if not ctx.check(sorted(got_rep) == sorted(want_rep), 'chain_walk_repeat',
-                             f'{pre}walk_folder_repeat({q!r}) [{lab}]\n want {sorted(want_rep)!r}\n got  {sorted(got_rep)!r}',
-                             **facts):
-                continue
-            once = list(chain.walk_folder(q))
-            got_once = [fold(f.path) for f in once]
-            if not ctx.check(sorted(got_once) == sorted(first), 'chain_walk_dedup',
-                             f'{pre}walk_folder({q!r}) [{lab}]\n want {sorted(first)!r}\n got  {sorted(got_once)!r}', **facts):
-                continue
-            if len(want_rep) > len(first):
-                ctx.label('walk_deduplicated')
-            seen_rep = set()
-            for f in rep:
-                name = fold(f.path)
-                if name in seen_rep:
+        def expect_absent(q: str, step: str, lab: str) -> None:
+            facts = {'spelling': lab, 'query': q, 'step': step}
+            ctx.check(not (q in chain), 'chain_lookup', f'{step}: {describe()}: {q!r} is visible through no member but '
+                      f'`in` says present', **facts)
+            for op in ('getitem', 'open_bin', 'open_str'):
+                try:
+                    if op == 'getitem':
+                        chain[q]
+                    else:
+                        getattr(chain, op)(q).close()
+                except FileNotFoundError:
                     continue
-                seen_rep.add(name)
-                m, stored = first[name]
-                data = read_all(f.open_bin())
-                ctx.check(data == m.fset.tokens[stored], 'chain_walk_priority',
-                          f'{pre}walk_folder_repeat({q!r}): first {f.path!r} opened to {data!r}, the highest-priority '
-                          f'member holds {m.fset.tokens[stored]!r}', **facts)
-            for f in once:
-                m, stored = first[fold(f.path)]
-                want = m.fset.tokens[stored]
-                data = read_all(f.open_bin())
-                ctx.check(data == want, 'chain_walk_priority',
-                          f'{pre}walk_folder({q!r}): {f.path!r} opened to {data!r}, want {want!r}', **facts)
-                # the listed name resolves through the chain (raw members: only if spelled exactly)
-                w = winner(f.path)
+                ctx.fail('chain_lookup', f'{step}: {describe()}: {q!r} is visible through no member but {op} found it', **facts)
+
+        def query_round(step: str, rnd: int) -> None:
+            # --- lookups
+            for lab, q in rotate(universe, desc['qseed'] + 7 * rnd, 28):
+                w = winner(q)
                 if w == 'unspecified':
+                    ctx.label('raw_skipped_case')
                     continue
-                if not ctx.check(w is not None and f.path in chain, 'chain_listed_lookup',
-                                 f'{pre}walk_folder({q!r}) listed {f.path!r} but `in` says absent', **facts):
+                if w is None:
+                    ctx.label('lookup:not_yet_visible')
+                    asked_while_absent.add(fold(q))
+                    expect_absent(q, step, lab)
+                    continue
+                m, stored = w
+                ctx.label('lookup:' + lab)
+                facts = {'spelling': lab, 'query': q, 'winner_backend': m.backend, 'step': step}
+                pre = (f'{step}: {describe()}: {q!r} ({lab}) should come from member #{m.index} ({m.backend}, prefix '
+                       f'{m.prefix_arg!r}, stored {stored!r})')
+                if not ctx.check(q in chain, 'chain_lookup', f'{pre}: `in` says absent', **facts):
                     continue
                 try:
-                    data = read_all(chain[f.path].open_bin())
+                    f = chain[q]
                 except FileNotFoundError:
-                    ctx.fail('chain_listed_lookup', f'{pre}walk_folder({q!r}) listed {f.path!r} but chain[...] raises '
-                             f'FileNotFoundError', **facts)
+                    ctx.fail('chain_lookup', f'{pre}: chain[...] raised FileNotFoundError', **facts)
                     continue
-                ctx.check(data == want, 'chain_listed_lookup',
-                          f'{pre}walk_folder({q!r}) listed {f.path!r}; chain[...] opened to {data!r}, want {want!r}', **facts)
+                want = m.fset.tokens[stored]
+                for what, data in (('File.open_bin', read_all(f.open_bin())), ('File.open_str', read_all(f.open_str())),
+                                   ('chain.open_bin', read_all(chain.open_bin(q))),
+                                   ('chain.open_str', read_all(chain.open_str(q)))):
+                    ctx.check(data == want, 'chain_priority', f'{pre}: {what} gave {data!r}, want {want!r}', **facts)
+                if fold(f.path) != fold(q):
+                    ctx.label('note:chain_lookup_path_keeps_prefix')
+            for q in rotate(absent, desc['qseed'] + rnd, 8):
+                if winner(q) is not None:
+                    continue
+                ctx.label('lookup:absent')
+                asked_while_absent.add(fold(q))
+                expect_absent(q, step, 'absent')
+
+            # --- walks
+            done = set()
+            for lab, q in [('all', '')] + rotate(folder_universe, desc['qseed'] + 5 * rnd, 8):
+                if q in done:
+                    continue
+                done.add(q)
+                lists = [m.listing(q) for m in order]
+                if any(x is None for x in lists):
+                    ctx.label('raw_skipped_case')
+                    continue
+                ctx.label('walk:' + lab)
+                facts = {'folder_kind': lab, 'folder': q, 'step': step}
+                want_rep = []
+                first: dict[str, tuple] = {}
+                for m, lst in zip(order, lists):
+                    for stored in lst:
+                        name = fold(m.rel(stored))
+                        want_rep.append(name)
+                        first.setdefault(name, (m, stored))
+                pre = f'{step}: {describe()}: '
+                rep = list(chain.walk_folder_repeat(q))
+                got_rep = [fold(f.path) for f in rep]
+                if not ctx.check(sorted(got_rep) == sorted(want_rep), 'chain_walk_repeat',
+                                 f'{pre}walk_folder_repeat({q!r}) [{lab}]\n want {sorted(want_rep)!r}\n got  {sorted(got_rep)!r}',
+                                 **facts):
+                    continue
+                once = list(chain.walk_folder(q))
+                got_once = [fold(f.path) for f in once]
+                if not ctx.check(sorted(got_once) == sorted(first), 'chain_walk_dedup',
+                                 f'{pre}walk_folder({q!r}) [{lab}]\n want {sorted(first)!r}\n got  {sorted(got_once)!r}', **facts):
+                    continue
+                if len(want_rep) > len(first):
+                    ctx.label('walk_deduplicated')
+                seen_rep = set()
+                for f in rep:
+                    name = fold(f.path)
+                    if name in seen_rep:
+                        continue
+                    seen_rep.add(name)
+                    m, stored = first[name]
+                    data = read_all(f.open_bin())
+                    ctx.check(data == m.fset.tokens[stored], 'chain_walk_priority',
+                              f'{pre}walk_folder_repeat({q!r}): first {f.path!r} opened to {data!r}, the highest-priority '
+                              f'member holds {m.fset.tokens[stored]!r}', **facts)
+                for f in once:
+                    m, stored = first[fold(f.path)]
+                    want = m.fset.tokens[stored]
+                    data = read_all(f.open_bin())
+                    ctx.check(data == want, 'chain_walk_priority',
+                              f'{pre}walk_folder({q!r}): {f.path!r} opened to {data!r}, want {want!r}', **facts)
+                    # the listed name resolves through the chain (raw members: only if spelled exactly)
+                    w = winner(f.path)
+                    if w == 'unspecified':
+                        continue
+                    if not ctx.check(w is not None and f.path in chain, 'chain_listed_lookup',
+                                     f'{pre}walk_folder({q!r}) listed {f.path!r} but `in` says absent', **facts):
+                        continue
+                    try:
+                        data = read_all(chain[f.path].open_bin())
+                    except FileNotFoundError:
+                        ctx.fail('chain_listed_lookup', f'{pre}walk_folder({q!r}) listed {f.path!r} but chain[...] raises '
+                                 f'FileNotFoundError', **facts)
+                        continue
+                    ctx.check(data == want, 'chain_listed_lookup',
+                              f'{pre}walk_folder({q!r}) listed {f.path!r}; chain[...] opened to {data!r}, want {want!r}', **facts)
+
+        # --- the history
+        check_order('after constructor')
+        query_round(f'round 0 (constructor with {n_ctor} members)', 0)
+        for k, (m, fs) in enumerate(zip(members[n_ctor:], systems[n_ctor:]), start=1):
+            if m.how == 'priority':
+                chain.add_sys(fs, m.prefix_arg, priority=True)
+                order.insert(0, m)
+                ctx.label('priority_insert')
+                if asked_while_absent & set(final_vis[m.index]):
+                    ctx.label('chain:query_before_priority_insert')
+            else:
+                chain.add_sys(fs, m.prefix_arg)
+                order.append(m)
+                if asked_while_absent & set(final_vis[m.index]):
+                    ctx.label('chain:query_before_append')
+            step = f'round {k} (after add_sys(#{m.index} {m.backend}, {m.prefix_arg!r}, priority={m.how == "priority"}))'
+            check_order(step)
+            query_round(step, k)
     finally:
         scratch.close()
 
@@ -993,21 +1048,23 @@ def execute_case_dups(desc, ctx):
 
 SUBCHECKS = [
     Sub('names', execute_names, strategy=fileset_strategy, quick=500, thorough=30000, floor=40,
-        must_hit=('mixed_case', 'prefix_pair', 'spelling:backslash', 'spelling:swap', 'spelling:mixed_slash', 'absent',
+        must_hit=('name:lower_ne_casefold', 'mixed_case', 'prefix_pair', 'spelling:backslash', 'spelling:swap', 'spelling:mixed_slash', 'absent',
                   'depth:3', 'empty_set')),
 ] + [
     Sub('walk_' + b, make_walk_execute(b), strategy=fileset_strategy, quick=500, thorough=30000, floor=40,
         must_hit=('mixed_case', 'prefix_pair', 'folder:all', 'folder:exact', 'folder:exact_slash', 'folder:name_prefix',
                   'folder:name_extended', 'folder:file_as_folder', 'walk_nonempty:exact', 'walk_nonempty:exact_slash',
                   'walk_nonempty:all', 'depth:3')
-        + (() if b == 'raw' else ('folder:upper', 'walk_nonempty:upper')))
+        + (() if b == 'raw' else ('folder:upper', 'walk_nonempty:upper'))
+        + (() if b == 'vpk' else ('name:lower_ne_casefold',)))
     for b in BACKENDS
 ] + [
     Sub('case_dups', execute_case_dups, strategy=casedup_strategy, quick=500, thorough=30000, floor=40,
         must_hit=('has_case_dup_file', 'has_case_dup_folder', 'backend:zip', 'backend:vpk', 'chain:single',
                   'chain:zip+vpk')),
     Sub('chain', execute_chain, strategy=chain_strategy, quick=600, thorough=30000, floor=40,
-        must_hit=('shared_name', 'priority_insert', 'prefixed_member', 'members:4', 'walk_deduplicated',
+        must_hit=('chain:query_before_append', 'chain:query_before_priority_insert', 'lookup:not_yet_visible',
+                  'shared_name', 'priority_insert', 'prefixed_member', 'members:4', 'walk_deduplicated',
                   'member:virtual', 'member:zip', 'member:vpk', 'member:raw', 'walk:exact', 'lookup:upper',
                   'lookup:backslash')),
 ]
